@@ -5,6 +5,12 @@
 pub trait Storage {
     spec fn view(&self) -> Store;
 }
+// cw2::set_contract_version (dependency): writes cw2's own `contract_info` item only, which no contract of the repository reads;
+// it is not part of the modelled store
+#[verifier::external_body]
+pub fn set_contract_version(storage: &mut dyn Storage, name: &str, version: &str) -> (r: StdResult<()>)
+    ensures r is Ok, final(storage).view() == old(storage).view(),
+{ unimplemented!() }
 
 #[derive(Clone, Copy)]
 pub struct QuerierWrapper { pub w: Ghost<World> }
